@@ -253,7 +253,7 @@ from hv import hprop  # noqa: E402
 HIST = hprop.HistoryProperty(
     prop=PROP, monitors=lambda: [C12History()],
     profile=profile(nv=(2, 8), n_requests=(10, 40), builtin=[True], fleets=[0, 0, 2, 3], socs=[0.05, 0.12, 0.3, 0.31, 0.6, 0.9, 1.0], timeouts=[300, 600]),
-    nontrivial=lambda f: "history_pairing" in f, rule="", assumptions=[], quick=(4, 60, 40), thorough=(4, 1500, 70),
+    nontrivial=lambda f: "history_pairing" in f, rule="", assumptions=[], quick=(4, 60, 40), thorough=(4, 800, 60),
 )
 
 
